@@ -246,8 +246,12 @@ PinEvs(out)  == SelectSeq(out.evs, LAMBDA e : e.t = "pin" /\ e.ok)
 Pins(out)    == [i \in DOMAIN PinEvs(out) |-> PinEvs(out)[i].pin]        \* what the cluster accepted
 OfType(ps, t) == SelectSeq(ps, LAMBDA p : p.type = t)
 
-DeliveredSet(out) == {e.blk : e \in {x \in Range(Puts(out)) : \E j \in DOMAIN x.res : x.res[j].r = "ok"}}
-SentTo(out, ids)  == UNION {{e.res[j].d : j \in DOMAIN e.res} : e \in {x \in Range(Puts(out)) : x.blk \in ids}}
+\* (index sets rather than sets of event records: cheap for TLC on long runs)
+PutIdx(out) == {i \in DOMAIN out.evs : out.evs[i].t = "put"}
+DeliveredSet(out) ==
+    {out.evs[i].blk : i \in {j \in PutIdx(out) : \E k \in DOMAIN out.evs[j].res : out.evs[j].res[k].r = "ok"}}
+SentTo(out, ids) ==
+    UNION {{out.evs[i].res[k].d : k \in DOMAIN out.evs[i].res} : i \in {j \in PutIdx(out) : out.evs[j].blk \in ids}}
 DataIds(in)       == {in.blk[in.stream[i]].id : i \in DOMAIN in.stream}
 
 Lk(G, x) == IF x \in DOMAIN G THEN G[x].links ELSE <<>>
@@ -337,19 +341,24 @@ PinsOnSuccess(in, out) ==
 \* (the root pin; for sharded adds the pin of the shard linking the block, including the shard's
 \* own nodes).  "Everywhere" pins (empty list) are covered by any daemon; local adds are exempt
 \* from the allocation clause (blocks go to the local daemon by design) but not from storage.
-StoredAt(out, d) == {e.blk : e \in {x \in Range(Puts(out)) : \E j \in DOMAIN x.res : x.res[j].d = d /\ x.res[j].r = "ok"}}
-HeldBy(in, out, p, ids) ==
+StoredAt(out, d) ==
+    {out.evs[i].blk : i \in {j \in PutIdx(out) :
+        \E k \in DOMAIN out.evs[j].res : out.evs[j].res[k].d = d /\ out.evs[j].res[k].r = "ok"}}
+\* the shard's own nodes (root and indirection leaves)
+RECURSIVE MetaUnder(_, _, _)
+MetaUnder(G, D, x) ==
+    LET l == Lk(G, x) IN {x} \cup UNION {MetaUnder(G, D, l[i]) : i \in {j \in DOMAIN l : l[j] \notin D}}
+HeldBy(in, st, p, ids) ==
     LET where == IF in.rmin < 0 \/ (in.local /\ ~in.shard) THEN Range(DestOrder) ELSE Range(p.allocs)
-        held  == UNION {StoredAt(out, d) : d \in where}
-    IN ids \subseteq held
+    IN ids \subseteq UNION {st[d] : d \in where \cap DOMAIN st}
 StoredByAllocation(in, out) ==
     out.ok =>
-      LET ps == Pins(out) IN
-      IF ~in.shard THEN \A i \in DOMAIN ps : ps[i].type = "data" => HeldBy(in, out, ps[i], DataIds(in))
-      ELSE \A p \in Range(OfType(ps, "shard")) :
-              HeldBy(in, out, p, Range(DataLinks(out.graph, DataIds(in), p.cid))
-                                 \cup (Reach(out.graph, {p.cid}) \ DataIds(in))
-                                 \cup {p.cid})
+      LET ps == Pins(out)
+          D  == DataIds(in)
+          st == [d \in Range(DestOrder) |-> StoredAt(out, d)]
+      IN IF ~in.shard THEN \A i \in DOMAIN ps : ps[i].type = "data" => HeldBy(in, st, ps[i], D)
+         ELSE \A p \in Range(OfType(ps, "shard")) :
+                 HeldBy(in, st, p, Range(DataLinks(out.graph, D, p.cid)) \cup MetaUnder(out.graph, D, p.cid))
 
 \* on failure the root is not pinned; at no time is it pinned before the add succeeded
 FailureNoRootPin(in, out) ==
@@ -361,6 +370,9 @@ ContentOK(out) ==
               /\ \A f \in Range(c.files) : f.shain = f.shaout
               /\ c.refroot = "" \/ c.refroot = c.rootcid
               /\ c.other = "" \/ c.other = c.rootcid
+
+\* the graph arrives as a JSON object (a record): as a function its domain is computed once
+NormGraph(out) == [out EXCEPT !.graph = [y \in DOMAIN out.graph |-> out.graph[y]]]
 
 Preds == <<"StoredByAllocation", "Delivered", "Closed", "Partition", "UnderLimit", "DepthCovers", "PinsOnSuccess", "FailureNoRootPin">>
 Holds(name, in, out) ==
